@@ -79,7 +79,17 @@ def roundtrip(tree, ansi):
     st, t2 = impl.outcome(impl.M.parse, s)
     if st != "ok":
         return False, s, "re-parse rejected (%s)" % (t2,)
-    return canon(t2) == canon(tree), s, t2
+    if canon(t2) != canon(tree):
+        return False, s, t2
+    if not ansi:
+        # ansi_quotes=False asks for the quoting that the MySQL entry point reads (back-ticks; there "..." is a string literal): the text must
+        # carry the names for that reader too -- in particular when the same name was formatted with the other quote character earlier
+        st, t3 = impl.outcome(impl.ENTRY["mysql_parser"], s)
+        if st != "ok":
+            return False, s, "parse_mysql rejected (%s)" % (t3,)
+        if canon(t3) != canon(tree):
+            return False, s, dict(parse_mysql=t3)
+    return True, s, t2
 
 
 def run(ctx):
